@@ -355,7 +355,10 @@ class C09(Machine):
                 ties = int(np.sum((W == thr) & off))
                 if ties:
                     R.probe("ties_at_selected_threshold")
-                if rho * M - nz > 1 + ties + 1e-9:
+                # the code selects sorted[floor((1-rho)M)]: the request is
+                # missed by the entries tied with the selected one (which is
+                # itself one of them), never by more
+                if rho * M - nz > ties + 1e-9:
                     bad("density-missed",
                         f"requested {rho} ({rho * M:.3f} links), realised "
                         f"{nz}, only {ties} pairs tied at the threshold")
